@@ -247,3 +247,81 @@ def tail_loops(depth):
         return [p.localfunction("loop", p.func(["n"], body)), p.emit([p.call(p.id("pcall"), [p.id("loop"), p.num(20)])])]
     mk(non_tail_control)
     return out
+
+
+def minimal_callees():
+    """callees whose body uses nothing but its parameters (no temporary above the last parameter),
+    reached by ordinary calls, tail calls, pcall, methods, with too few / too many arguments"""
+    out = []
+    bodies = {
+        "last2": (["a", "b"], False, lambda p: [p.ret([p.id("b")])]),
+        "last3": (["a", "b", "c"], False, lambda p: [p.ret([p.id("c")])]),
+        "last4": (["a", "b", "c", "d"], False, lambda p: [p.ret([p.id("d")])]),
+        "both": (["a", "b"], False, lambda p: [p.ret([p.id("a"), p.id("b")])]),
+        "rev3": (["a", "b", "c"], False, lambda p: [p.ret([p.id("c"), p.id("b"), p.id("a")])]),
+        "cond": (["a", "b"], False, lambda p: [p.if_([p.bin("==", p.id("a"), p.id("b"))], [p.block([p.ret([p.id("a")])])]), p.ret([p.id("b")])]),
+        "valast": (["a", "b"], True, lambda p: [p.ret([p.id("b")])]),
+        "vadots": (["a", "b"], True, lambda p: [p.ret([p.dots()])]),
+        "vaarg": (["a", "b"], True, lambda p: [p.ret([p.id("arg")])]),
+        "one": (["a"], False, lambda p: [p.ret([p.id("a")])]),
+        "none": (["a", "b"], False, lambda p: [p.ret([])]),
+        "setlast": (["a", "b"], False, lambda p: [p.assign([p.id("glast")], [p.id("b")])]),
+        "testlast": (["a", "b"], False, lambda p: [p.if_([p.id("b")], [p.block([p.ret([p.str("yes")])])]), p.ret([p.str("no")])]),
+    }
+    for bname, (ps, va, body) in bodies.items():
+        for how in ("call", "tail", "tailva", "tailunpack", "pcall", "method", "tailmethod", "gcall", "cotail"):
+            p = Prog()
+            ud = va and bname != "vaarg"
+            f = p.func(ps, p.block(body(p)), va=va, ud=ud)
+            ss = [p.localfunction("f", f)]
+            for nargs in (0, len(ps) - 1, len(ps), len(ps) + 2):
+                args = lambda: [p.num(10 * (i + 1)) for i in range(nargs)]
+                if how == "call":
+                    ss.append(p.emit([p.str("r"), p.num(nargs), p.call(p.id("f"), args())]))
+                elif how == "tail":
+                    ss.append(p.emit([p.str("r"), p.num(nargs), p.call(p.paren(p.func([], p.block([p.ret([p.call(p.id("f"), args())])]))), [])]))
+                elif how == "tailva":
+                    ss.append(p.emit([p.str("r"), p.num(nargs), p.call(p.paren(p.func([], p.block([p.ret([p.call(p.id("f"), [p.dots()])])]), va=True, ud=True)), args())]))
+                elif how == "tailunpack":
+                    ss.append(p.emit([p.str("r"), p.num(nargs), p.call(p.paren(p.func(["t"], p.block([p.ret([p.call(p.id("f"), [p.call(p.id("unpack"), [p.id("t")])])])]))), [p.table([("p", a) for a in args()])])]))
+                elif how == "pcall":
+                    ss.append(p.emit([p.str("r"), p.num(nargs), p.call(p.id("pcall"), [p.id("f")] + args())]))
+                elif how == "gcall":
+                    ss.append(p.emit([p.str("r"), p.num(nargs), p.call(p.id("gcall"), [p.id("f")] + args())]))
+                elif how in ("method", "tailmethod"):
+                    if nargs == 0:
+                        continue
+                    if how == "method":
+                        ss.append(p.emit([p.str("r"), p.num(nargs), p.method(p.table([("k", p.add("str", s=[109], name=True), p.id("f"))]), "m", args()[1:])]))
+                    else:
+                        ss.append(p.emit([p.str("r"), p.num(nargs), p.call(p.paren(p.func(["o"], p.block([p.ret([p.method(p.id("o"), "m", args()[1:])])]))),
+                                                                            [p.table([("k", p.add("str", s=[109], name=True), p.id("f"))])])]))
+                elif how == "cotail":
+                    ss.append(p.emit([p.str("r"), p.num(nargs), p.call(p.field(p.id("coroutine"), "resume"),
+                                                                       [p.call(p.field(p.id("coroutine"), "create"), [p.func([], p.block([p.ret([p.call(p.id("f"), args())])]))])])]))
+            if bname == "setlast":
+                ss.append(p.emit([p.str("glast"), p.id("glast")]))
+            out.append((p, p.block(ss)))
+    return out
+
+
+def select_cases():
+    """select(n, ...) for every n from below -count to beyond count+1, and '#', in every all-results context"""
+    out = []
+    for count in range(0, 4):
+        p = Prog()
+        vals = lambda: [p.str("v%d" % (i + 1)) for i in range(count)]
+        ss = []
+        for n in list(range(-count - 2, count + 5)) + ["#"]:
+            narg = p.str("#") if n == "#" else p.num(n)
+            sel = lambda: p.call(p.id("select"), [narg] + vals())
+            fn = p.func([], p.block([p.ret([sel()])]))
+            fnva = p.func([], p.block([p.ret([p.call(p.id("select"), [narg, p.dots()])])]), va=True, ud=True)
+            asg = p.func([], p.block([p.local(["a", "b"], [sel()]), p.ret([p.id("a"), p.id("b")])]))
+            ss.append(p.emit([p.str("arg"), p.num(n) if n != "#" else p.str("#"), p.call(p.id("pcall"), [fn])]))
+            ss.append(p.emit([p.str("va"), p.call(p.id("pcall"), [fnva] + vals())]))
+            ss.append(p.emit([p.str("count"), p.call(p.id("pcall"), [p.func([], p.block([p.ret([p.call(p.id("select"), [p.str("#"), sel()])])]))])]))
+            ss.append(p.emit([p.str("tab"), p.call(p.id("pcall"), [p.func([], p.block([p.ret([p.un("#", p.table([("p", sel())]))])]))])]))
+            ss.append(p.emit([p.str("asg"), p.call(p.id("pcall"), [asg])]))
+        out.append((p, p.block(ss)))
+    return out
